@@ -2455,7 +2455,9 @@ int32_t processFinished(ssl_t *ssl, flightEncode_t *msg)
             psTraceErrr("Error snapshotting HS hash flight\n");
             psTraceIntInfo("sslSnapshotHSHash%d\n", rc);
             clearFlightList(ssl);
-            return rc;
+            /* An empty snapshot (0) is a failure too: the caller must not
+                go on with the flight list that was just freed */
+            return (rc < 0) ? rc : PS_FAILURE;
         }
 
 # ifdef ENABLE_SECURE_REHANDSHAKES
